@@ -117,6 +117,7 @@ def gen_cases(tier, seed):
             for offset in (0.0, 1e3, 1e4):
                 for dtype in ("float64", "float32"):
                     cases.append(dict(kind="tall", m=m, n=n, offset=offset, dtype=dtype))
+    cases.append(dict(kind="bufreuse"))  # one instance, one matrix buffer re-filled in place (mc/bufreuse.py)
     return cases
 
 
@@ -372,6 +373,13 @@ def _run_tall(acc, case):
 
 
 def run_case(case):
+    if case["kind"] == "bufreuse":
+        from torchjd import aggregation as T
+
+        from mc import bufreuse
+
+        return bufreuse.run({"TrimmedMean(1)": lambda dt: T.TrimmedMean(1), "TrimmedMean(2)": lambda dt: T.TrimmedMean(2), "Krum(0,1)": lambda dt: T.Krum(0, 1),
+                             "Krum(1,2)": lambda dt: T.Krum(1, 2), "Krum(2,3)": lambda dt: T.Krum(2, 3)}, shape=(6, 3))
     acc = _Acc()
     if case["kind"] == "reject":
         _run_reject(acc, case)
